@@ -383,6 +383,9 @@ def run_config(chk, ctx, name):
                     chk.count("child_components", 1)
 
     decomposition_rules(chk, F, dfn, cfield, tag)
+    # G4: the exhaustion threshold (C05-A1): a key that is not wiped after its last leaf wraps around and signs with leaf 0 again
+    from . import c05 as _c05
+    _c05.threshold_rules(chk, F, key_anchors(F, A), tag, prefix="G4")
 
     # ---------------- G1 / G2 ----------------
     # G1: the function returning the one-time private key type from &mut LMS private key
